@@ -279,7 +279,22 @@ impl Ranges {
         };
 
         ranges.deserialize_inner(seq, parsed_value_seed)?;
+
+        // only a type and no ranges, e.g. `["i8"]`
+        if ranges.is_empty() {
+            return Err(serde::de::Error::custom(Error::EmptyRange));
+        }
+
         Ok(ranges)
+    }
+
+    fn is_empty(&self) -> bool {
+        let mut is_empty = true;
+        let _ = self.try_for_each_value::<_, core::convert::Infallible>(|_| {
+            is_empty = false;
+            Ok(())
+        });
+        is_empty
     }
 
     pub fn from_type(range_type: RangeType) -> Self {
